@@ -238,6 +238,9 @@ func c02(tier string) []*explore.Scenario {
 	for _, kind := range []string{"Bidi", "SStream", "CStream"} {
 		out = append(out, c03HandlerErrorValues("C02", kind, 0))
 	}
+	// everything the handler sent and its clean end have reached the client's queues; then the connection goes away;
+	// then the caller reads: it still gets every message and the clean end
+	out = append(out, c03LateReaderFP("C02", "SStream", 1, false, 64, true, 1), c03LateReaderFP("C02", "SStream", 0, false, 64, true, 1), c03LateReaderFP("C02", "Bidi", 2, false, 64, true, 1))
 	out = append(out, opInWriteAll("C02", 0)...)
 	// finer granularity (a scheduling point after every Unlock as well) on the small core scenarios
 	out = append(out, fineGrained(c02One([]streamCase{{"Bidi", "pingpong", "echo", 2, 0, 0}}, 0, 1), c02One([]streamCase{{"Bidi", "concurrent", "echo", 2, 0, 0}}, 64, 1), c02One([]streamCase{{"Bidi", "sendall", "retearly", 2, 1, 0}}, 64, 1))...)
